@@ -26,5 +26,5 @@ Proof. vm_compute. reflexivity. Qed.
 (* how much of the vendored copy is verbatim (by shape) the installed stock release: these functions carry no Nunavut change
    unless upstream made the identical change *)
 Lemma verbatim_reference_count_lemma :
-  (length (filter eq_stock31 vendored_digests) >= 270)%nat /\ length vendored_digests = 733%nat.
+  (length (filter eq_stock31 vendored_digests) >= 270)%nat /\ length vendored_digests = 774%nat.
 Proof. vm_compute. split; [repeat constructor|reflexivity]. Qed.
